@@ -10,7 +10,7 @@
     dx = (E - W) / nc for adjust = "spacing" (0), dx = spacing for adjust = "region" (1). *)
 From Coq Require Import QArith Qround Qabs ZArith List Bool Lia.
 From Verde Require Import Lib.QExtra Model.Coordinates Model.CoordCases Model.Blocks
-  Proofs.CoordinatesProofs Proofs.RegionProofs Proofs.BlocksProofs.
+  Model.BlocksHuge Proofs.CoordinatesProofs Proofs.RegionProofs Proofs.BlocksProofs Proofs.BlocksHugeProofs.
 Import ListNotations.
 Open Scope Q_scope.
 
@@ -146,6 +146,12 @@ Theorem C08_model_satisfies_statement : forall east north spacing adjust region 
     block_holds sc t G (combine east north) (b_east b) (b_north b) (b_labels b) = true.
 Proof. exact block_split_holds. Qed.
 Print Assumptions C08_model_satisfies_statement.
+
+(** for block grids too large for the brute-force model the check evaluates the statement
+    in its integer form, which is the same statement *)
+Theorem C08_statement_integer_form : forall G t p k, label_okZ G t p (Z.of_nat k) = label_ok G t p k.
+Proof. exact label_okZ_eq. Qed.
+Print Assumptions C08_statement_integer_form.
 
 (** non-vacuity: 2 x 4 blocks of size 1 over [0, 4] x [0, 2]; interior points, a point on
     a corner shared by four blocks, points outside *)
